@@ -1,7 +1,8 @@
 """C10 - zone transactions match a reference model and are all-or-nothing.
 
 case  = [cfg, probes, hist]
-cfg   = [kind (0 dns.zone.Zone | 1 dns.versioned.Zone | 2 dns.btreezone.Zone), relativize, origin labels]
+cfg   = [kind (0 dns.zone.Zone | 1 dns.versioned.Zone | 2 dns.btreezone.Zone), relativize, origin labels,
+         identity observed? (optional, default 1; 0 for B-tree zones whose history touches NS records)]
 probes= absolute names looked up in the *published* zone after every transaction
 hist  = [txn...]     txn = [mode (0 writer | 1 writer(replacement=True) | 2 reader),
                             style (0 manual: op errors are caught, the transaction goes on, commit/rollback
@@ -46,9 +47,12 @@ TRUSTED = [
     "dns.zone._validate_name, Version.get_node/get_rdataset, WritableVersion._maybe_cow_with_name/put_rdataset/"
     "delete_rdataset/delete_node, zone.Transaction._end_transaction, Node._append_rdataset/replace_rdataset/"
     "delete_rdataset, Rdataset.update_ttl/add/union/intersection/difference, dns.serial.Serial.__add__)",
-    "rdata values are abstract ids: rdata equality/hash (C07) and the rdata text/wire codecs are outside this model",
+    "both implementation models of TxnM.v are evaluated on every case: the object-level model hstore (node objects with identity, "
+    "copy-on-write) yields the observation incl. per-name object identity before/after each transaction; the value-level model "
+    "zstore (the one `refines` relates to the reference store) must agree on results and content, otherwise the case counts as a disagreement",
+    "rdata values are abstract ids: rdata equality/hash (C07) and the rdata text/wire codecs are outside this model; rdataset objects are values",
     "dns.btreezone node flags / delegation index (C20) and versioned-zone version retention (C11/C12) are outside this model; "
-    "the three zone classes are modelled by one value-level version model (their difference is object identity / immutability)",
+    "the three zone classes are modelled by one version model (their differences - immutability wrappers, flags - are outside)",
 ]
 ASSUMPTIONS = [
     "zones have a known origin (zone.origin is not None) and class IN",
@@ -321,7 +325,8 @@ def all_node_objects(z):
 
 def run_case(case, full=False):
     cfg, probes, hist = case
-    kind, rel, origin = cfg
+    kind, rel, origin = cfg[:3]
+    idobs = cfg[3] if len(cfg) > 3 else 1
     z = ZONES[kind](dns.name.Name(origin), relativize=bool(rel))
     out = []
     for mode, style, ops, fault in hist:
@@ -332,8 +337,10 @@ def run_case(case, full=False):
         res = run_txn(z, mode, style, ops, fault)
         after = node_objects(z, probes)
         ident = [None if (b is None or a is None) else int(a is b) for b, a in zip(before, after)]
-        o = [res, observe(z, probes), ident]
+        o = [res, observe(z, probes)] + ([ident] if idobs else [])
         if full:
+            if not idobs:
+                o.append(ident)
             o.append(full_dump(z))
             # the node objects of the previously published zone, as they are now
             o.append(int([dump_node(n) for n in old_objs] == old_dumps))
@@ -348,7 +355,8 @@ def impl(case):
     full = run_case(case, full=True)
     _full.clear()
     _full[repr(case)] = full
-    return [t[:3] for t in full]
+    n = 3 if (len(case[0]) <= 3 or case[0][3]) else 2
+    return [t[:n] for t in full]
 
 
 # ------------------------------------------------------------------ the reference model (property text)
@@ -951,8 +959,25 @@ def probes_of(origin):
     return seen
 
 
+def mentions_ns(hist):
+    """does any argument of the history carry NS records / name the NS type (btreezone delegation bookkeeping)"""
+    for _, _, ops, _ in hist:
+        for op in ops:
+            if op[0] in (1, 2, 3, 4):
+                for a in op[1]:
+                    if (a[0] == 2 and a[1][0] == NS) or (a[0] == 3 and a[2][0] == NS) or (a[0] == 5 and a[1][0] == NS) \
+                            or (a[0] in (4, 6) and a[1] == NS):
+                        return True
+    return False
+
+
+def mk_cfg(kind, rel, origin, hist):
+    # object identity is not observed on B-tree zones whose history can touch a delegation (see TxnM.run)
+    return [kind, rel, origin, 0 if (kind == 2 and mentions_ns(hist)) else 1]
+
+
 def mk_case(kind, rel, origin, hist):
-    return [[kind, rel, origin], probes_of(origin), hist]
+    return [mk_cfg(kind, rel, origin, hist), probes_of(origin), hist]
 
 
 def reform_arg(a, origin, form):
@@ -993,7 +1018,7 @@ def reform_case(case, kind, rel, form):
             else:
                 nops.append(op)
         nh.append([mode, style, nops, fault])
-    return [[kind, rel, origin], probes, nh]
+    return [mk_cfg(kind, rel, origin, nh), probes, nh]
 
 
 def cases(ctx):
